@@ -29,7 +29,9 @@ Fields == { [f |-> "19",  maxlen |-> 17, cur |-> FALSE], [f |-> "32A", maxlen |-
             [f |-> "90C", maxlen |-> 15, cur |-> TRUE],  [f |-> "90D", maxlen |-> 15, cur |-> TRUE] }
 
 Precisions == {0, 2, 3, 4}
-DecimalSpellings == {"canon", "dot", "nocomma"}
+\* "tiny": integer part 0 and a fraction of f-1 zeros and one digit (0,00005) -- values a float formatter
+\* may switch to exponent notation for
+DecimalSpellings == {"canon", "dot", "nocomma", "tiny"}
 OtherSpellings   == {"plus", "minus", "exp", "nan", "inf", "infinity", "twosep", "space", "hex", "empty"}
 Spellings == DecimalSpellings \cup OtherSpellings
 
@@ -67,6 +69,7 @@ Init == /\ fld \in Fields
         /\ sp \in Spellings /\ n \in IntDigits /\ f \in FracDigits
         /\ (sp \in OtherSpellings \ {"plus", "minus", "twosep", "space"}) => (n = 1 /\ f = 0)
         /\ (sp = "nocomma") => f = 0
+        /\ (sp = "tiny") => (n = 1 /\ f >= 1 /\ (fld.f = "36" => f <= 4))
         /\ (cur # "") => (sp = "canon" /\ n = 2 /\ f \in {prec, prec + 1})
         /\ (fld.f = "36") => n <= 5      \* field 36 documents a plausibility range (0.0001 .. 100000)
         /\ (fld.f = "61") => sp \in DecimalSpellings \cup {"plus", "minus"}
